@@ -360,72 +360,54 @@ def name_encoding_ok(fx, name):
 
 
 def clause_e(ctx, fx, config="default"):
-    """disclosure text = ["<salt>", <JSON(name)>, <JSON(value)>] / ["<salt>", <JSON(value)>]: the literal pieces of both format!
-    templates, the name encoded by serde from the UNMODIFIED key, the value being the serialisation of the value parameter,
-    optionally passed through the per-character ASCII escaper (checked: copies ASCII unchanged, stateless)"""
-    import imodel
-    import transducer
-    sites = imodel.text_sites(fx)
-    if not sites:
-        ctx.missing("C01.e", "disclosure text", "no function formats a disclosure text `[\"salt\", ...]`")
+    """disclosure text = ["<salt>", <JSON(name)>, <JSON(value)>] / ["<salt>", <JSON(value)>]: the text every disclosure constructor encodes,
+    evaluated to a term however it is assembled (sa/dtext.py: format!, join, push_str, helpers, argument structs ...), must normalise to
+    exactly these two forms: the name encoded by serde from the UNMODIFIED key, the value the serialisation of the value parameter, both
+    optionally passed through a character escaper AFTER encoding (checked: copies ASCII unchanged, stateless)"""
+    import dtext
+    M = dtext.Model(fx, config)
+    if not M.ctors:
+        ctx.missing("C01.e", "disclosure text", "no function builds the SDJWTDisclosure literal: no disclosure text to judge")
         return
-    D = sites[0][0]
-    texts = [n for (tf, b, n, pcs) in sites]
-    shapes = {3: ['["', None, '", ', None, ', ', None, ']'], 2: ['["', None, '", ', None, ']']}
+    D = M.ctors[0][0]
+    for (f, msg) in M.problems:
+        ctx.finding("C01.e", f, "text-format", "cannot find the disclosure text: %s" % msg)
+    forms, names, verdict = dtext.judged_forms(M)
+    for n in names:
+        ok, msg = verdict[n]
+        f = fx.fns.get(n)
+        if ok:
+            ctx.ok("C01.e", f, "value-escaper", "%s %s" % (n.split("::")[-1], msg))
+        else:
+            ctx.finding("C01.e", f, "value-escaper", "a function applied to disclosure text is not shown to be a per-character escaper that leaves ASCII untouched (%s)" % msg)
     seen = set()
-    for tx in texts:
-        pcs = common.fmt_pieces(tx)
-        if pcs is None:
-            ctx.finding("C01.e", D, "text-format", "the disclosure text is not a decodable format! of [salt, name?, value]: %s" % vstr(tx, 4))
+    for t in forms:
+        sk, salt, name, value = dtext.skeleton(t)
+        txt = dtext.show(t)
+        unk = dtext.leaves(t, "unk")
+        if unk or t[0] == "unk":
+            ctx.finding("C01.e", D, "text-format", "the disclosure text cannot be determined (%s): %s" % (", ".join(u[1] for u in (unk or [t])), txt))
             continue
-        nargs = sum(1 for (k, _) in pcs if k == "arg")
-        want = shapes.get(nargs)
-        got = [(x if k == "lit" else None) for (k, x) in pcs]
+        nargs = 3 if name is not None else 2
+        want_sk = '["S", N, V]' if nargs == 3 else '["S", V]'
+        if sk != want_sk:
+            ctx.finding("C01.e", D, "text-format:%d" % nargs, "the disclosure text is %s (expected %s): the disclosure is not the JSON array [\"salt\", name?, value]" % (txt, dtext.show(dtext.expected(nargs == 3))))
+            seen.add(nargs)
+            continue
         seen.add(nargs)
-        if want is None or got != want:
-            ctx.finding("C01.e", D, "text-format:%d" % nargs, "the disclosure text template is %r (expected %r): the disclosure is not the JSON array [\"salt\", name?, value]" % (got, want))
-            continue
-        ctx.ok("C01.e", D, "text-format:%d" % nargs, "template is [\"{}\", %s{}]" % ("{}, " if nargs == 3 else ""))
-        args = [x for (k, x) in pcs if k == "arg"]
-        value = args[-1]
+        ctx.ok("C01.e", D, "text-format:%d" % nargs, "the text is %s" % dtext.show(dtext.expected(nargs == 3)))
         if nargs == 3:
-            okn, why = name_encoding_ok(fx, args[1])
-            if okn:
+            if name == ("Q", ("key",)):
                 ctx.ok("C01.e", D, "name-encoding", "the member name is JSON-encoded by serde (Value::String(name).to_string()) from the unmodified key")
             else:
-                ctx.finding("C01.e", D, "name-encoding", "the member name in the disclosure text is not serde's JSON encoding of the unmodified key (%s): holder and verifier recover a different name" % why)
-        # value alternatives
-        alts = peel(value).kids if peel(value).kind == "phi" else [value]
-        for alt in alts:
-            a = alt
-            hops = []
-            okv = None
-            guard = 0
-            while guard < 6:
-                guard += 1
-                p = peel(a)
-                if p.kind == "call" and p.d["term"].get("name") == "to_string" and p.kids and peel(p.kids[0]).kind == "param" and (peel(p.kids[0]).d.get("ty") or "").lstrip("&") in ("V", "serde_json::Value", "T"):
-                    okv = True
-                    break
-                if p.kind == "call" and p.d["term"].get("resolved_local") and p.d["term"].get("resolved") in fx.fns and p.kids:
-                    hops.append(fx.fns[p.d["term"]["resolved"]])
-                    a = p.kids[0]
-                    continue
-                okv = False
-                break
-            if not okv:
-                ctx.finding("C01.e", D, "value-encoding", "the value part of the disclosure text is not the serialisation of the value parameter: %s" % vstr(alt, 4))
-                continue
-            bad = None
-            for h in hops:
-                if config == "mock_salts" and h.name not in ctx.facts("default").fns:
-                    continue  # the mock-only re-spacer is judged by C16.M3b
-                ok, msg = transducer.ascii_identity(h)
-                if not ok:
-                    bad = (h, msg)
-            if bad:
-                ctx.finding("C01.e", bad[0], "value-escaper", "a function applied to the serialised value is not a per-character escaper that leaves ASCII untouched (%s)" % bad[1])
-            else:
-                ctx.ok("C01.e", D, "value-encoding", "value text = to_string(value)%s" % ("".join(" |> " + h.name.split("::")[-1] for h in reversed(hops))))
+                ctx.finding("C01.e", D, "name-encoding", "the member name in the disclosure text is not serde's JSON encoding of the unmodified key (it is %s): holder and verifier recover a different name" % dtext.show(name))
+        if value == ("value",):
+            ctx.ok("C01.e", D, "value-encoding", "value text = to_string(value), escapers applied after encoding only")
+        else:
+            ctx.finding("C01.e", D, "value-encoding", "the value part of the disclosure text is not the serialisation of the value parameter: %s" % dtext.show(value))
+        if salt != ("salt",):
+            ctx.finding("C01.e", D, "text-format:%d" % nargs, "the first element of the disclosure is not the bare salt: %s" % dtext.show(salt))
     if seen != {2, 3}:
         ctx.finding("C01.e", D, "text-forms", "expected both the named (3 fields) and the unnamed (2 fields) disclosure form, found %s" % sorted(seen))
+
+
